@@ -1564,16 +1564,15 @@ Qed.
    following the control flow (which sections run depends on the step a fault leaves), over a relation [RRk] / [RRl]
    between two points of a call: the events in between, read as a mode automaton (the condition of the newest cancel
    callback), every Transaction-Finished reporting the mode, and the state being cancelled with the mode (or, on the
-   completion path, reset).  Stretches that neither declare nor complete are dealt with wholesale through the predicate
+   completion path, reset).  A checksum verification is only reached while no cancel callback has been delivered in the
+   call (F35 repair: the deferred procedure leaves a cancelled transaction alone), so nothing overwrites the condition.  Stretches that neither declare nor complete are dealt with wholesale through the predicate
    [Gate] of IndicationProofs (NG / NGS). *)
 (* ------------------------------------------------------------------ vocabulary of the cancel theorem *)
 Definition is_cancel (e : event) : bool := match e with EvFault k _ _ _ _ => k =? FH_CANCEL | _ => false end.
 Definition is_finished (e : event) : bool := match e with EvFinished _ _ _ _ _ _ => true | _ => false end.
-(* the condition a cancelled transaction reports: the one of the cancellation, or, if a checksum verification
-   succeeded after it, No Error with Data Complete *)
-Definition cond_ok (c cd dl : Z) : Prop := cd = c \/ (cd = C_NO_ERROR /\ dl = DATA_COMPLETE).
+(* the transaction is being cancelled with condition c (since the F35 repair no verification overwrites it) *)
 Definition cancelling (c : Z) (s : dst) : Prop :=
-  p_disp (d_p s) = DISP_CANCELED /\ cond_ok c (f_cond (p_fin (d_p s))) (f_deliv (p_fin (d_p s))).
+  p_disp (d_p s) = DISP_CANCELED /\ f_cond (p_fin (d_p s)) = c.
 Definition dfresh (s : dst) : Prop := d_state s = ST_IDLE /\ d_step s = DS_IDLE /\ d_p s = fresh_params.
 (* the condition of the newest cancel callback among the events (newest first); m0 if there is none *)
 Fixpoint mode_after (m0 : option Z) (new : list event) : option Z :=
@@ -1589,7 +1588,7 @@ Fixpoint fins_ok (m0 : option Z) (new : list event) : Prop :=
   | e :: older =>
       fins_ok m0 older /\
       match e with
-      | EvFinished _ _ cd dl _ _ => match mode_after m0 older with Some c => cond_ok c cd dl | None => True end
+      | EvFinished _ _ cd _ _ _ => match mode_after m0 older with Some c => cd = c | None => True end
       | _ => True
       end
   end.
@@ -1625,14 +1624,14 @@ Proof.
 Qed.
 
 (* ------------------------------------------------------------------ the relation between two points of a call *)
-Definition trip (s : dst) : Z * Z * Z := (p_disp (d_p s), f_cond (p_fin (d_p s)), f_deliv (p_fin (d_p s))).
+Definition trip (s : dst) : Z * Z := (p_disp (d_p s), f_cond (p_fin (d_p s))).
 Definition mk (m : option Z) (s : dst) : Prop := forall c, m = Some c -> cancelling c s.
 Definition ml (m : option Z) (s : dst) : Prop := forall c, m = Some c -> cancelling c s \/ dfresh s.
 Definition RRk (m0 : option Z) (s : dst) (m1 : option Z) (s' : dst) : Prop :=
   exists new, log_d s' = new ++ log_d s /\ fins_ok m0 new /\ m1 = mode_after m0 new /\ mk m1 s'.
 Definition RRl (m0 : option Z) (s : dst) (m1 : option Z) (s' : dst) : Prop :=
   exists new, log_d s' = new ++ log_d s /\ fins_ok m0 new /\ m1 = mode_after m0 new /\ ml m1 s'.
-(* a stretch without cancel callback and Transaction-Finished that leaves disposition, condition and delivery code alone *)
+(* a stretch without cancel callback and Transaction-Finished that leaves disposition and condition code alone *)
 Definition nq (s s' : dst) : Prop :=
   exists new, log_d s' = new ++ log_d s /\ forallb quiet_ev new = true /\ trip s' = trip s.
 
@@ -1640,8 +1639,8 @@ Lemma mk_ml : forall m s, mk m s -> ml m s.
 Proof. intros m s H c E. left. apply H, E. Qed.
 Lemma mk_trip : forall m s s', trip s' = trip s -> mk m s -> mk m s'.
 Proof.
-  intros m s s' T H c E. specialize (H c E). unfold cancelling, trip in *. injection T as T1 T2 T3.
-  rewrite T1, T2, T3. exact H.
+  intros m s s' T H c E. specialize (H c E). unfold cancelling, trip in *. injection T as T1 T2.
+  rewrite T1, T2. exact H.
 Qed.
 Lemma rrk_l : forall m0 s m1 s', RRk m0 s m1 s' -> RRl m0 s m1 s'.
 Proof. intros m0 s m1 s' [n [L [F [M K]]]]. exists n. split; [exact L|]. split; [exact F|]. split; [exact M | apply mk_ml, K]. Qed.
@@ -1717,14 +1716,14 @@ Proof.
 Qed.
 
 (* ------------------------------------------------------------------ the specifications, function by function *)
-Definition trip4 (s : dst) : Z * Z * Z * Z := (p_disp (d_p s), f_cond (p_fin (d_p s)), f_deliv (p_fin (d_p s)), d_step s).
+Definition trip4 (s : dst) : Z * Z * Z := (p_disp (d_p s), f_cond (p_fin (d_p s)), d_step s).
 (* neutral and the step stays *)
 Definition NGS {A} (m : D A) : Prop := forall c4, Gate log_d trip4 (fun _ e => quiet_ev e) c4 m.
 Definition nqs (s s' : dst) : Prop := nq s s' /\ d_step s' = d_step s.
 
 Lemma ngs_nqs {A} (m : D A) s : NGS m -> nqs s (fst (m s)).
 Proof.
-  intro H. destruct (H (trip4 s) s eq_refl) as [n [L [Q T]]]. unfold trip4 in T. injection T as T1 T2 T3 T4.
+  intro H. destruct (H (trip4 s) s eq_refl) as [n [L [Q T]]]. unfold trip4 in T. injection T as T1 T2 T4.
   split; [|exact T4]. exists n. split; [exact L|]. split; [exact Q|]. unfold trip. congruence.
 Qed.
 Lemma ngs_ng {A} (m : D A) : NGS m -> NG m.
@@ -1742,11 +1741,23 @@ Proof.
   - unfold postx. eapply ek_of_rrk. apply nq_rrk; eassumption.
 Qed.
 
+Lemma nslast {A} (m : D A) m0 s (F : A -> option Z -> dst -> Prop) :
+  NGS m -> mk m0 s -> (forall a s1, nq s s1 -> d_step s1 = d_step s -> F a m0 s1) -> postx (QK m0 s F) (EK m0 s) (m s).
+Proof.
+  intros Hm Hk HF. pose proof (ngs_nqs m s Hm) as [N St]. unfold postx. destruct (m s) as [s1 [a|e]]; cbn [fst] in N, St.
+  - exists m0. split; [apply nq_rrk; assumption | apply HF; assumption].
+  - eapply ek_of_rrk. apply nq_rrk; eassumption.
+Qed.
+
 Lemma mk_none : forall s, mk None s.
 Proof. intros s c E. discriminate E. Qed.
+(* a transaction that is not cancelled has seen no cancel callback *)
+Lemma mk_disp : forall m s, mk m s -> p_disp (d_p s) <> DISP_CANCELED -> m = None.
+Proof. intros [c|] s H N; [|reflexivity]. destruct (H c eq_refl) as [X _]. contradiction. Qed.
 
 Lemma k_declare_fault : forall cond m0 s, mk m0 s ->
   postx (QK m0 s (fun fh m1 s' =>
+           get_fault_handler (l_faults (d_cfg s)) cond = Some fh /\
            d_state s' = d_state s /\ d_cfg s' = d_cfg s /\ fh <> FH_ABANDON /\
            ((fh = FH_CANCEL /\ m1 = Some cond /\ d_step s' = DS_TRANSFER_COMPLETION) \/
             (fh <> FH_CANCEL /\ m1 = m0 /\ d_step s' = d_step s /\ trip s' = trip s))))
@@ -1754,14 +1765,14 @@ Lemma k_declare_fault : forall cond m0 s, mk m0 s ->
 Proof.
   intros cond m0 s Hk. unfold declare_fault. mrun.
   destruct (p_tid (d_p s)) as [[a b]|]; [|eapply ek_of_rrk, rrk_refl, Hk].
-  destruct (get_fault_handler (l_faults (d_cfg s)) cond) as [fh|]; [|eapply ek_of_rrk, rrk_refl, Hk].
+  destruct (get_fault_handler (l_faults (d_cfg s)) cond) as [fh|] eqn:Ft; [|eapply ek_of_rrk, rrk_refl, Hk].
   destruct (fh =? FH_CANCEL) eqn:E1; [|destruct (fh =? FH_ABANDON) eqn:E2].
   - assert (fh = FH_CANCEL) as -> by (apply Z.eqb_eq; exact E1).
     unfold notice_of_cancellation. mrun. change (FH_CANCEL =? FH_ABANDON) with false. cbv iota. mfin.
     exists (Some cond). split.
     + exists [EvFault FH_CANCEL a b cond (p_progress (d_p s))]. split; [reflexivity|]. split; [cbn; auto|].
-      split; [reflexivity|]. intros c E. inversion E; subst c. split; [reflexivity | left; reflexivity].
-    + split; [reflexivity|]. split; [reflexivity|]. split; [discriminate|]. left. repeat split; reflexivity.
+      split; [reflexivity|]. intros c E. inversion E; subst c. split; reflexivity.
+    + split; [reflexivity|]. split; [reflexivity|]. split; [reflexivity|]. split; [discriminate|]. left. repeat split; reflexivity.
   - assert (fh = FH_ABANDON) as -> by (apply Z.eqb_eq; exact E2). mrun. mfin.
     exists m0. change (E_ABANDONED =? E_ABANDONED) with true. cbv iota.
     exists [EvFault FH_ABANDON a b cond (p_progress (d_p s))]. split; [reflexivity|]. split; [cbn; auto|].
@@ -1769,7 +1780,7 @@ Proof.
   - mrun. mfin. exists m0. split.
     + exists [EvFault fh a b cond (p_progress (d_p s))]. split; [reflexivity|]. split; [cbn; auto|].
       split; [cbn [mode_after]; rewrite E1; reflexivity|]. eapply mk_trip; [|exact Hk]. reflexivity.
-    + split; [reflexivity|]. split; [reflexivity|]. split; [intro X; subst fh; discriminate E2|].
+    + split; [reflexivity|]. split; [reflexivity|]. split; [reflexivity|]. split; [intro X; subst fh; discriminate E2|].
       right. split; [intro X; subst fh; discriminate E1|]. repeat split; reflexivity.
 Qed.
 
@@ -1780,12 +1791,6 @@ Lemma ngs_vfs_checksum : forall ty n sz, NGS (vfs_checksum ty n sz).
 Proof. intros. ngs. Qed.
 
 (* a successful verification of a cancelled transaction overwrites condition and delivery code *)
-Lemma mk_verified : forall m s s', mk m s -> p_disp (d_p s') = p_disp (d_p s) ->
-  f_cond (p_fin (d_p s')) = C_NO_ERROR -> f_deliv (p_fin (d_p s')) = DATA_COMPLETE -> mk m s'.
-Proof.
-  intros m s s' H D C L c E. destruct (H c E) as [H1 _]. split; [rewrite D; exact H1 | right; split; assumption].
-Qed.
-
 Lemma k_ret {A} (a : A) m0 s (F : A -> option Z -> dst -> Prop) : mk m0 s -> F a m0 s -> postx (QK m0 s F) (EK m0 s) (ret a s).
 Proof. intros H HF. exists m0. split; [apply rrk_refl, H | exact HF]. Qed.
 Lemma k_raise {A} e m0 s (F : A -> option Z -> dst -> Prop) : mk m0 s -> postx (QK m0 s F) (EK m0 s) (@raise dst A e s).
@@ -1815,6 +1820,7 @@ Qed.
 
 Definition DFF (cond : Z) (m0 : option Z) (s : dst) : Z -> option Z -> dst -> Prop :=
   fun fh m1 s' =>
+    get_fault_handler (l_faults (d_cfg s)) cond = Some fh /\
     d_state s' = d_state s /\ d_cfg s' = d_cfg s /\ fh <> FH_ABANDON /\
     ((fh = FH_CANCEL /\ m1 = Some cond /\ d_step s' = DS_TRANSFER_COMPLETION) \/
      (fh <> FH_CANCEL /\ m1 = m0 /\ d_step s' = d_step s /\ trip s' = trip s)).
@@ -1825,30 +1831,56 @@ Lemma kbind_df {B} cond (k : Z -> D B) m0 s (F : B -> option Z -> dst -> Prop) :
   postx (QK m0 s F) (EK m0 s) (bind (declare_fault cond) k s).
 Proof. intros K H. eapply kbind; [apply k_declare_fault; exact K | exact H]. Qed.
 
+(* the step after a computation: unchanged with the mode, or the completion step *)
+Definition FSF (m0 : option Z) (s : dst) : unit -> option Z -> dst -> Prop :=
+  fun _ m1 s' => (m1 = m0 /\ d_step s' = d_step s) \/ d_step s' = DS_TRANSFER_COMPLETION.
+Definition FWF (m0 : option Z) : unit -> option Z -> dst -> Prop :=
+  fun _ m1 s' => m1 = m0 \/ d_step s' = DS_TRANSFER_COMPLETION.
+(* the same, and the step is kept unless it was the step of the EOF ACK *)
+Definition FWA (m0 : option Z) (s : dst) : unit -> option Z -> dst -> Prop :=
+  fun _ m1 s' => (m1 = m0 /\ (d_step s <> DS_SENDING_EOF_ACK -> d_step s' = d_step s)) \/ d_step s' = DS_TRANSFER_COMPLETION.
+
+(* no cancel callback so far, or the completion step *)
+Definition FWN {A} : A -> option Z -> dst -> Prop := fun _ m1 s' => m1 = None \/ d_step s' = DS_TRANSFER_COMPLETION.
+
+(* which exceptions the filestore handler of handle_fd_pdu catches *)
+Definition NotFs (e : Z) : Prop := ((e =? E_FILE_NOT_FOUND) || (e =? E_PERMISSION)) = false.
+
+Lemma postx_and_exn {S T A} (delta : S -> T) (C : Z -> Prop) (m : M S A) s (Q : A -> S -> Prop) (E : Z -> S -> Prop) :
+  postx Q E (m s) -> MInv delta C m -> postx Q (fun e s' => E e s' /\ C e) (m s).
+Proof.
+  intros H Hm. destruct (Hm s) as [_ H2]. unfold postx in *. destruct (m s) as [s1 [a|e]]; [exact H|].
+  split; [exact H | apply H2; reflexivity].
+Qed.
+
 Definition FT {A} : A -> option Z -> dst -> Prop := fun _ _ _ => True.
 
-(* after a verification: mode and step as before, or (verification failed and) the completion step *)
-Definition FCV (m0 : option Z) (s : dst) : bool -> option Z -> dst -> Prop :=
-  fun ok m1 s' => (m1 = m0 /\ d_step s' = d_step s) \/ (ok = false /\ d_step s' = DS_TRANSFER_COMPLETION).
+(* a verification is only made while no cancel callback has been delivered in the call.  After it: no callback and the
+   step as before, or (verification failed, the fault cancelled) the completion step and the table says cancel *)
+Definition FCV (s : dst) : bool -> option Z -> dst -> Prop :=
+  fun ok m1 s' => (m1 = None /\ d_step s' = d_step s) \/
+                  (ok = false /\ d_step s' = DS_TRANSFER_COMPLETION /\
+                   get_fault_handler (l_faults (d_cfg s')) C_CHECKSUM_FAILURE = Some FH_CANCEL).
 
-Lemma k_checksum_verify : forall m0 s, mk m0 s -> postx (QK m0 s (FCV m0 s)) (EK m0 s) (checksum_verify s).
+Lemma rrk_none : forall s s1, log_d s1 = log_d s -> RRk None s None s1.
+Proof. intros s s1 L. exists []. split; [exact L|]. split; [exact I|]. split; [reflexivity | apply mk_none]. Qed.
+
+Lemma k_checksum_verify : forall s, postx (QK None s (FCV s)) (EK None s) (checksum_verify s).
 Proof.
-  intros m0 s Hk. unfold checksum_verify. mrun.
-  assert (Hyes : postx (QK m0 s (FCV m0 s)) (EK m0 s)
+  intros s. pose proof (mk_none s) as Hk. unfold checksum_verify. mrun.
+  assert (Hyes : postx (QK None s (FCV s)) (EK None s)
             ((when true (setp (fun p => p <| p_fin ::= (fun f => f <| f_deliv := DATA_COMPLETE |> <| f_cond := C_NO_ERROR |>) |>)) ;;; ret true) s)).
-  { unfold when; cbv iota. mrun. mfin. exists m0. split; [|left; split; reflexivity].
-    exists []. split; [reflexivity|]. split; [exact I|]. split; [reflexivity|].
-    eapply mk_verified; [exact Hk | reflexivity | reflexivity | reflexivity]. }
+  { unfold when; cbv iota. mrun. mfin. exists None. split; [apply rrk_none; reflexivity | left; split; reflexivity]. }
   destruct ((p_cktype (d_p s) =? CK_NULL) || p_md_only (d_p s)); [mrun; exact Hyes|].
   rewrite bind_assoc. apply nsbind; [apply ngs_vfs_checksum | exact Hk|].
   intros crc s1 N1 St1 K1.
   destruct (bytes_eqb crc (p_crc32 (d_p s)) && _).
-  - mrun. unfold when; cbv iota. mrun. mfin. exists m0. split; [|left; split; [reflexivity | exact St1]].
-    exists []. split; [reflexivity|]. split; [exact I|]. split; [reflexivity|].
-    eapply mk_verified; [exact K1 | reflexivity | reflexivity | reflexivity].
+  - mrun. unfold when; cbv iota. mrun. mfin. exists None. split; [apply rrk_none; reflexivity | left; split; [reflexivity | exact St1]].
   - rewrite bind_assoc. apply kbind_df; [exact K1|].
     intros fh m1 s2 K2 D2. mrun. unfold when; cbv iota. mrun. apply k_ret; [exact K2|].
-    destruct D2 as [_ [_ [_ [[_ [_ D2]]|[_ [D2 [D3 _]]]]]]]; [right; split; [reflexivity | exact D2] | left; split; [exact D2 | congruence]].
+    destruct D2 as [Ft [_ [Cf [_ [[Ec [_ D2]]|[_ [D2 [D3 _]]]]]]]].
+    + right. split; [reflexivity|]. split; [exact D2|]. rewrite Cf, <- Ec. exact Ft.
+    + left. split; [exact D2 | congruence].
 Qed.
 
 Lemma k_rebase {A} m0 s s1 (F : A -> option Z -> dst -> Prop) x :
@@ -1876,36 +1908,70 @@ Proof. intros. ngs. Qed.
 Lemma ngs_vfs_write : forall n d o, NGS (vfs_write n d o).
 Proof. intros. ngs. Qed.
 
-Lemma k_filestore_rejection : forall m0 s, mk m0 s -> postx (QK m0 s FT) (EK m0 s) (filestore_rejection s).
+Lemma k_filestore_rejection : forall m0 s, mk m0 s -> postx (QK m0 s (FSF m0 s)) (EK m0 s) (filestore_rejection s).
 Proof.
   intros m0 s Hk. unfold filestore_rejection. mrun.
-  destruct (negb (f_fstatus (p_fin (d_p s)) =? FS_RETAINED)); unfold when; cbv iota; [|apply k_ret; [exact Hk | exact I]].
+  destruct (negb (f_fstatus (p_fin (d_p s)) =? FS_RETAINED)); unfold when; cbv iota; [|apply k_ret; [exact Hk | left; split; reflexivity]].
   mrun. rebase. apply kbind_df; [exact K|].
-  intros fh m1 s1 K1 _. apply k_ret; [exact K1 | exact I].
+  intros fh m1 s1 K1 D1. apply k_ret; [exact K1|].
+  destruct D1 as [_ [_ [_ [_ [[_ [_ D1]]|[_ [D1 [D2 _]]]]]]]]; [right; exact D1 | left; split; [exact D1 | exact D2]].
 Qed.
 
-Lemma k_handle_fd_pdu : forall o d m0 s, mk m0 s -> postx (QK m0 s FT) (EK m0 s) (handle_fd_pdu o d s).
+Lemma ncatch {A B} (m : D A) (k : A -> D B) (h : Z -> option (D B)) m0 s (F : B -> option Z -> dst -> Prop) :
+  NGS m -> mk m0 s ->
+  (forall e kk s1, h e = Some kk -> nq s s1 -> d_step s1 = d_step s -> mk m0 s1 -> postx (QK m0 s1 F) (EK m0 s1) (kk s1)) ->
+  (forall a s1, nq s s1 -> d_step s1 = d_step s -> mk m0 s1 -> postx (QK m0 s1 F) (EK m0 s1) (catch (k a) h s1)) ->
+  postx (QK m0 s F) (EK m0 s) (catch (bind m k) h s).
+Proof.
+  intros Hm Hk Hh Hr. pose proof (ngs_nqs m s Hm) as [N St].
+  assert (K1 : mk m0 (fst (m s))) by (destruct N as [n [_ [_ T]]]; eapply mk_trip; eassumption).
+  unfold catch at 1, bind at 1. destruct (m s) as [s1 [a|e]] eqn:Em; cbn [fst] in N, St, K1.
+  - eapply qk_shift; [apply nq_rrk; eassumption|]. specialize (Hr a s1 N St K1). unfold catch in Hr. exact Hr.
+  - destruct (h e) as [kk|] eqn:Eh.
+    + eapply qk_shift; [apply nq_rrk; eassumption|]. eapply Hh; eassumption.
+    + unfold postx. eapply ek_of_rrk. apply nq_rrk; eassumption.
+Qed.
+
+Lemma k_handle_fd_pdu : forall o d m0 s, mk m0 s -> postx (QK m0 s (FSF m0 s)) (EK m0 s) (handle_fd_pdu o d s).
 Proof.
   intros o d m0 s Hk. rewrite handle_fd_pdu_eq. mrun.
   apply nsbind; [ngs | exact Hk|]. intros u s1 N1 St1 K1. unfold fd_tail.
-  apply postx_catch with (E1 := EK m0 s1).
-  - mrun. apply nsbind; [destruct (if d_state s1 =? ST_IDLE then false else h_mode (p_conf (d_p s1)) =? ACKED); [apply ngs_lost_segment_handling | ngs] | exact K1|].
-    intros u2 s2 N2 St2 K2. mrun.
-    apply nsbind; [apply ngs_vfs_write | exact K2|]. intros u3 s3 N3 St3 K3. mrun. rebase.
+  assert (Hrej : forall s2, d_step s2 = d_step s -> mk m0 s2 -> postx (QK m0 s2 (FSF m0 s)) (EK m0 s2) (filestore_rejection s2)).
+  { intros s2 St2 K2. eapply k_weaken; [apply k_filestore_rejection; exact K2|].
+    intros a m1 s' [[X Y]|X]; [left; split; [exact X | congruence] | right; exact X]. }
+  assert (Hh : forall e kk s2, (if (e =? E_FILE_NOT_FOUND) || (e =? E_PERMISSION) then Some filestore_rejection else None) = Some kk ->
+                d_step s2 = d_step s -> mk m0 s2 -> postx (QK m0 s2 (FSF m0 s)) (EK m0 s2) (kk s2)).
+  { intros e kk s2 Hh St2 K2. destruct ((e =? E_FILE_NOT_FOUND) || (e =? E_PERMISSION)); [|discriminate Hh].
+    inversion Hh; subst kk. apply Hrej; assumption. }
+  cbv zeta.
+  apply ncatch; [ngs | exact K1 | |].
+  { intros e kk s2 Hhe N2 St2 K2. eapply Hh; [exact Hhe | congruence | exact K2]. }
+  intros acked sa Na Sta Ka.
+  apply ncatch; [destruct acked; [apply ngs_lost_segment_handling | ngs] | exact Ka | |].
+  { intros e kk s2 Hhe N2 St2 K2. eapply Hh; [exact Hhe | congruence | exact K2]. }
+  intros u2 s2 N2 St2 K2.
+  apply ncatch; [ngs | exact K2 | |].
+  { intros e kk s3 Hhe N3 St3 K3. eapply Hh; [exact Hhe | congruence | exact K3]. }
+  intros name sb Nb Stb Kb.
+  apply ncatch; [apply ngs_vfs_write | exact Kb | |].
+  { intros e kk s3 Hhe N3 St3 K3. eapply Hh; [exact Hhe | congruence | exact K3]. }
+  intros u3 s3 N3 St3 K3.
+  assert (S3 : d_step s3 = d_step s) by congruence.
+  apply postx_catch with (E1 := fun e s' => EK m0 s3 e s' /\ NotFs e).
+  - eapply postx_and_exn with (delta := @nothing dst); [|minv].
+    mrun. rebase.
     match goal with |- context [match ?x with Some _ => _ | None => _ end] => destruct x as [sz|] end;
       [destruct (sz <? o + zlen d)|].
     + try rewrite bind_assoc. apply kbind_df; [exact K|].
-      intros fh m1 s4 K4 _. mrun. destruct (negb (fh =? FH_IGNORE)); [apply k_ret; [exact K4 | exact I]|].
-      mfin. kok. exact I.
-    + mrun. mfin. kok. exact I.
-    + mrun. mfin. kok. exact I.
-  - intros e k s' Hh HE. destruct ((e =? E_FILE_NOT_FOUND) || (e =? E_PERMISSION)) eqn:Ee; [|discriminate Hh].
-    inversion Hh; subst k. destruct HE as [m1 R1].
-    assert (Ea : (e =? E_ABANDONED) = false).
-    { apply orb_true_iff in Ee. destruct Ee as [X|X]; apply Z.eqb_eq in X; subst e; reflexivity. }
-    rewrite Ea in R1. eapply qk_shift; [exact R1|]. apply k_filestore_rejection.
-    destruct R1 as [n [_ [_ [_ X]]]]. exact X.
-  - intros e s' _ H. exact H.
+      intros fh m1 s4 K4 D4. mrun.
+      assert (W : FSF m0 s tt m1 s4).
+      { destruct D4 as [_ [_ [_ [_ [[_ [_ D4]]|[_ [D4 [D5 _]]]]]]]]; [right; exact D4 | left; split; [exact D4 | cbn in D5; congruence]]. }
+      destruct (negb (fh =? FH_IGNORE)); [apply k_ret; [exact K4 | exact W]|].
+      mfin. kok. destruct W as [[X Y]|X]; [left; split; [exact X | exact Y] | right; exact X].
+    + mrun. mfin. kok. left. split; [reflexivity | exact S3].
+    + mrun. mfin. kok. left. split; [reflexivity | exact S3].
+  - intros e k s' Hhe [_ HE]. unfold NotFs in HE. rewrite HE in Hhe. discriminate Hhe.
+  - intros e s' _ [H _]. exact H.
 Qed.
 
 Lemma rrk_silent : forall m0 s s1, log_d s1 = log_d s -> mk m0 s1 -> RRk m0 s m0 s1.
@@ -1918,129 +1984,125 @@ Proof. ng. Qed.
 Lemma ngs_tracker_add : forall sg, NGS (tracker_add sg).
 Proof. intro. ngs. Qed.
 
-Lemma k_handle_no_error_eof : forall m0 s, mk m0 s -> postx (QK m0 s FT) (EK m0 s) (handle_no_error_eof s).
+(* the regular EOF: after it no cancel callback has been delivered, or the answer is "not regular" in the completion step *)
+Definition FNE : bool -> option Z -> dst -> Prop :=
+  fun regular m1 s' => m1 = None \/ (regular = false /\ d_step s' = DS_TRANSFER_COMPLETION).
+
+Lemma k_handle_no_error_eof : forall s, postx (QK None s FNE) (EK None s) (handle_no_error_eof s).
 Proof.
-  intros m0 s Hk. unfold handle_no_error_eof. mrun.
+  intros s. pose proof (mk_none s) as Hk. unfold handle_no_error_eof. mrun.
   set (acked := if d_state s =? ST_IDLE then false else h_mode (p_conf (d_p s)) =? ACKED).
   set (unacked := if d_state s =? ST_IDLE then false else h_mode (p_conf (d_p s)) =? UNACKED).
-  eapply kbind with (F1 := @FT bool).
+  eapply kbind with (F1 := fun (early : bool) m1 s1 => m1 = None \/ (early = true /\ d_step s1 = DS_TRANSFER_COMPLETION)).
   { destruct (opt_z (p_file_size_eof (d_p s)) <? p_progress (d_p s)).
-    - apply kbind_df; [exact Hk|]. intros fh m1 s1 K1 D1. apply k_ret; [exact K1 | exact I].
+    - apply kbind_df; [exact Hk|]. intros fh m1 s1 K1 D1. apply k_ret; [exact K1|].
+      destruct D1 as [_ [_ [_ [_ [[Ef [_ D1]]|[_ [D1 _]]]]]]]; [right; subst fh; split; [reflexivity | exact D1] | left; exact D1].
     - destruct ((p_progress (d_p s) <? opt_z (p_file_size_eof (d_p s))) && acked).
-      + apply nsbind; [apply ngs_tracker_add | exact Hk|]. intros u s1 N1 St1 K1. apply k_ret; [exact K1 | exact I].
-      + apply k_ret; [exact Hk | exact I]. }
-  intros early m1 s1 K1 _. destruct early; [apply k_ret; [exact K1 | exact I]|].
-  destruct unacked; [|apply k_ret; [exact K1 | exact I]].
-  eapply kbind; [apply k_checksum_verify; exact K1|].
-  intros ok m2 s2 K2 _. destruct ok; [apply k_ret; [exact K2 | exact I]|]. mrun.
-  destruct (get_fault_handler (l_faults (d_cfg s2)) C_CHECKSUM_FAILURE) as [fh|]; [|apply k_ret; [exact K2 | exact I]].
-  destruct (fh =? FH_IGNORE); [|apply k_ret; [exact K2 | exact I]].
-  apply nbind; [apply ng_start_check_limit_handling | exact K2|]. intros u s3 N3 K3. apply k_ret; [exact K3 | exact I].
+      + apply nsbind; [apply ngs_tracker_add | exact Hk|]. intros u s1 N1 St1 K1. apply k_ret; [exact K1 | left; reflexivity].
+      + apply k_ret; [exact Hk | left; reflexivity]. }
+  intros early m1 s1 K1 W1. destruct early.
+  { apply k_ret; [exact K1|]. destruct W1 as [X|[_ X]]; [left; exact X | right; split; [reflexivity | exact X]]. }
+  destruct W1 as [X|[X _]]; [subst m1 | discriminate X].
+  destruct unacked; [|apply k_ret; [exact K1 | left; reflexivity]].
+  eapply kbind; [apply k_checksum_verify|].
+  intros ok m2 s2 K2 C2. destruct ok; [apply k_ret; [exact K2|]; destruct C2 as [[X _]|[X _]]; [left; exact X | discriminate X]|]. mrun.
+  destruct C2 as [[X _]|[_ [St Tb]]].
+  - subst m2. destruct (get_fault_handler (l_faults (d_cfg s2)) C_CHECKSUM_FAILURE) as [fh|]; [|apply k_ret; [exact K2 | left; reflexivity]].
+    destruct (fh =? FH_IGNORE); [|apply k_ret; [exact K2 | left; reflexivity]].
+    apply nbind; [apply ng_start_check_limit_handling | exact K2|]. intros u s3 N3 K3. apply k_ret; [exact K3 | left; reflexivity].
+  - rewrite Tb. change (FH_CANCEL =? FH_IGNORE) with false. cbv iota. apply k_ret; [exact K2 | right; split; [reflexivity | exact St]].
 Qed.
 
-(* an EOF (cancel) PDU overrides the condition: it is only processed while no cancel callback has been delivered in the call *)
-Lemma rrk_none : forall s s1, log_d s1 = log_d s -> RRk None s None s1.
-Proof. intros s s1 L. apply rrk_silent; [exact L | apply mk_none]. Qed.
-
-Definition FEOF (cond : Z) (m0 : option Z) : unit -> option Z -> dst -> Prop :=
-  fun _ m1 _ => (cond =? C_NO_ERROR) = false -> m1 = m0.
-
-Lemma k_handle_eof_pdu : forall cond ck sz m0 s, mk m0 s -> ((cond =? C_NO_ERROR) = true \/ m0 = None) ->
-  postx (QK m0 s (FEOF cond m0)) (EK m0 s) (handle_eof_pdu cond ck sz s).
+Lemma k_handle_eof_pdu : forall cond ck sz s, postx (QK None s FWN) (EK None s) (handle_eof_pdu cond ck sz s).
 Proof.
-  intros cond ck sz m0 s Hk Hpre. unfold handle_eof_pdu. mrun. rebase.
+  intros cond ck sz s. pose proof (mk_none s) as Hk. unfold handle_eof_pdu. mrun. rebase.
   apply nsbind; [ngs | exact K|]. intros u s1 N1 St1 K1.
   destruct (cond =? C_NO_ERROR) eqn:Ec.
-  - eapply kbind; [apply k_handle_no_error_eof; exact K1|].
-    intros regular m1 s2 K2 _. destruct regular.
-    + apply nlast; [apply ng_ftct | exact K2 | intros a s3 N3; unfold FEOF; rewrite Ec; intro X; discriminate X].
-    + apply k_ret; [exact K2 | unfold FEOF; rewrite Ec; intro X; discriminate X].
-  - destruct Hpre as [X|X]; [discriminate X | subst m0]. mrun.
-    destruct (p_rcfg (d_p s1)) as [r|]; [|apply k_raise; exact K1]. mrun.
+  - eapply kbind; [apply k_handle_no_error_eof|].
+    intros regular m1 s2 K2 F2. destruct regular.
+    + destruct F2 as [X|[X _]]; [subst m1 | discriminate X].
+      apply nlast; [apply ng_ftct | exact K2 | intros a s3 N3; left; reflexivity].
+    + apply k_ret; [exact K2|]. destruct F2 as [X|[_ X]]; [left; exact X | right; exact X].
+  - mrun. destruct (p_rcfg (d_p s1)) as [r|]; [|apply k_raise; exact K1]. mrun.
     match goal with |- postx _ _ (_ ?st) => apply (qk_shift None s1 None st); [apply rrk_none; reflexivity|] end.
-    apply nlast; [apply ng_ftct | apply mk_none | intros a s3 N3 _; reflexivity].
+    apply nlast; [apply ng_ftct | apply mk_none | intros a s3 N3; left; reflexivity].
 Qed.
 
-Lemma k_init_vfs_handling : forall b m0 s, mk m0 s -> postx (QK m0 s FT) (EK m0 s) (init_vfs_handling b s).
+Lemma ncatch_last {A} (m : D A) (h : Z -> option (D A)) m0 s (F : A -> option Z -> dst -> Prop) :
+  NGS m -> mk m0 s ->
+  (forall e kk s1, h e = Some kk -> nq s s1 -> d_step s1 = d_step s -> mk m0 s1 -> postx (QK m0 s1 F) (EK m0 s1) (kk s1)) ->
+  (forall a s1, nq s s1 -> d_step s1 = d_step s -> F a m0 s1) ->
+  postx (QK m0 s F) (EK m0 s) (catch m h s).
+Proof.
+  intros Hm Hk Hh Hr. pose proof (ngs_nqs m s Hm) as [N St].
+  assert (K1 : mk m0 (fst (m s))) by (destruct N as [n [_ [_ T]]]; eapply mk_trip; eassumption).
+  unfold catch at 1. destruct (m s) as [s1 [a|e]] eqn:Em; cbn [fst] in N, St, K1.
+  - exists m0. split; [apply nq_rrk; assumption | apply Hr; assumption].
+  - destruct (h e) as [kk|] eqn:Eh.
+    + eapply qk_shift; [apply nq_rrk; eassumption|]. eapply Hh; eassumption.
+    + unfold postx. eapply ek_of_rrk. apply nq_rrk; eassumption.
+Qed.
+
+Lemma k_init_vfs_handling : forall b m0 s, mk m0 s -> postx (QK m0 s (FSF m0 s)) (EK m0 s) (init_vfs_handling b s).
 Proof.
   intros b m0 s Hk. unfold init_vfs_handling.
-  apply postx_catch with (E1 := EK m0 s).
-  - apply nlast; [ngs | exact Hk | intros; exact I].
-  - intros e k s' Hh HE. destruct (e =? E_PERMISSION) eqn:Ee; [|discriminate Hh].
-    inversion Hh; subst k. destruct HE as [m1 R1].
-    assert (Ea : (e =? E_ABANDONED) = false) by (apply Z.eqb_eq in Ee; subst e; reflexivity).
-    rewrite Ea in R1. eapply qk_shift; [exact R1|].
-    assert (K1 : mk m1 s') by (destruct R1 as [n [_ [_ [_ X]]]]; exact X).
-    mrun. rebase. apply kbind_df; [exact K|]. intros fh m2 s2 K2 _. apply k_ret; [exact K2 | exact I].
-  - intros e s' _ H. exact H.
-Qed.
-
-Lemma mk_deliv : forall m s s', mk m s -> p_disp (d_p s') = p_disp (d_p s) ->
-  f_cond (p_fin (d_p s')) = f_cond (p_fin (d_p s)) -> f_deliv (p_fin (d_p s')) = DATA_COMPLETE -> mk m s'.
-Proof.
-  intros m s s' H D C L c E. destruct (H c E) as [H1 H2]. split; [rewrite D; exact H1|]. rewrite C.
-  destruct H2 as [H2|[H2 _]]; [left; exact H2 | right; split; assumption].
+  apply ncatch_last; [ngs | exact Hk | |].
+  - intros e kk s1 Hh N1 St1 K1. cbv beta in Hh. destruct (e =? E_PERMISSION); [|discriminate Hh]. inversion Hh; subst kk.
+    mrun. rebase. apply kbind_df; [exact K|]. intros fh m2 s2 K2 D2. apply k_ret; [exact K2|].
+    destruct D2 as [_ [_ [_ [_ [[_ [_ D2]]|[_ [D2 [D3 _]]]]]]]]; [right; exact D2 | left; split; [exact D2 | cbn in D3; congruence]].
+  - intros a s1 N1 St1. left. split; [reflexivity | exact St1].
 Qed.
 
 Lemma k_handle_metadata_packet : forall h cl ck sz names msgs m0 s, mk m0 s ->
-  postx (QK m0 s FT) (EK m0 s) (handle_metadata_packet h cl ck sz names msgs s).
+  postx (QK m0 s (FWF m0)) (EK m0 s) (handle_metadata_packet h cl ck sz names msgs s).
 Proof.
   intros h cl ck sz names msgs m0 s Hk. unfold handle_metadata_packet. mrun. rebase.
-  eapply kbind with (F1 := @FT unit).
-  { destruct names as [[sn dn]|].
-    - mfin. kok. exact I.
-    - mfin. exists m0. split; [|exact I]. apply rrk_silent; [reflexivity|].
-      eapply mk_deliv; [exact K | reflexivity | reflexivity | reflexivity]. }
-  intros u m1 s1 K1 _. mrun. rebase as K2.
+  eapply kbind with (F1 := fun (_ : unit) m1 (_ : dst) => m1 = m0).
+  { destruct names as [[sn dn]|]; mfin; kok; reflexivity. }
+  intros u m1 s1 K1 E1. subst m1. mrun. rebase as K2.
   match goal with |- context [match ?x with Some _ => _ | None => _ end] => destruct x as [r|] end; [|apply k_raise; exact K2].
   mrun.
-  assert (Hev : forall m2 s2, mk m2 s2 ->
-            postx (QK m2 s2 FT) (EK m2 s2)
+  assert (Hev : forall m2 s2, mk m2 s2 -> (m2 = m0 \/ d_step s2 = DS_TRANSFER_COMPLETION) ->
+            postx (QK m2 s2 (FWF m0)) (EK m2 s2)
               ((t <- gp p_tid ;;
                 let '(src, seq) := match t with Some x => x | None => (-1, -1) end in
                 emit (EvMetadataRecv src seq (h_src h) (match names with Some _ => Some sz | None => None end) names msgs)) s2)).
-  { intros m2 s2 Hk2. apply nlast; [ngs | exact Hk2 | intros; exact I]. }
+  { intros m2 s2 Hk2 W. apply nslast; [ngs | exact Hk2|]. intros a s3 N3 St3.
+    destruct W as [X|X]; [left; exact X | right; congruence]. }
   match goal with |- context [if negb ?x then _ else _] => destruct x end; cbn [negb]; mrun.
-  - rebase as K3. apply Hev. exact K3.
-  - rebase as K3. eapply kbind; [apply k_init_vfs_handling; exact K3|]. intros u2 m2 s2 Hk2 _. apply Hev. exact Hk2.
+  - rebase as K3. apply Hev; [exact K3 | left; reflexivity].
+  - rebase as K3. eapply kbind; [apply k_init_vfs_handling; exact K3|]. intros u2 m2 s2 Hk2 F2. apply Hev; [exact Hk2|].
+    destruct F2 as [[X _]|X]; [left; exact X | right; exact X].
 Qed.
 
-Lemma k_heowpm : forall cond ck sz m0 s, mk m0 s -> ((cond =? C_NO_ERROR) = true \/ m0 = None) ->
-  postx (QK m0 s (FEOF cond m0)) (EK m0 s) (handle_eof_without_previous_metadata cond ck sz s).
+Lemma k_heowpm : forall cond ck sz s,
+  postx (QK None s FWN) (EK None s) (handle_eof_without_previous_metadata cond ck sz s).
 Proof.
-  intros cond ck sz m0 s Hk Hpre. unfold handle_eof_without_previous_metadata.
+  intros cond ck sz s. unfold handle_eof_without_previous_metadata.
   destruct (cond =? C_NO_ERROR) eqn:Ec; cbn [negb].
-  - apply nlast; [ng | exact Hk | intros a s1 N1; unfold FEOF; rewrite Ec; intro X; discriminate X].
-  - eapply k_weaken; [apply k_handle_eof_pdu; [exact Hk | rewrite Ec; exact Hpre]|].
-    intros a m1 s' H. exact H.
+  - apply nlast; [ng | apply mk_none | intros a s1 N1; left; reflexivity].
+  - apply k_handle_eof_pdu.
 Qed.
-
-Definition pkt_ok (pkt : option pdu) : bool :=
-  match pkt with Some (PEof _ cond _ _ _) => cond =? C_NO_ERROR | _ => true end.
-Definition FPK (pkt : option pdu) (m0 : option Z) : unit -> option Z -> dst -> Prop :=
-  fun _ m1 _ => pkt_ok pkt = false -> m1 = m0.
 
 Lemma ngs_reset_nak : NGS reset_nak_activity_parameters.
 Proof. ngs. Qed.
 
-Lemma k_hwfmm : forall pkt m0 s, mk m0 s -> (pkt_ok pkt = true \/ m0 = None) ->
-  postx (QK m0 s (FPK pkt m0)) (EK m0 s) (handle_waiting_for_missing_metadata pkt s).
+Lemma k_hwfmm : forall pkt s, postx (QK None s FWN) (EK None s) (handle_waiting_for_missing_metadata pkt s).
 Proof.
-  intros pkt m0 s Hk Hpre. unfold handle_waiting_for_missing_metadata.
+  intros pkt s. pose proof (mk_none s) as Hk. unfold handle_waiting_for_missing_metadata.
   destruct pkt as [[h off data|h cl ck sz names msgs|h c ck sz fl| | | | | ]|];
-    try (apply k_ret; [exact Hk | intro X; discriminate X]).
-  - apply nlast; [ng | exact Hk | intros a s1 N1 X; discriminate X].
-  - eapply kbind; [apply k_handle_metadata_packet; exact Hk|]. intros u m1 s1 K1 _.
-    apply nlast; [ng | exact K1 | intros a s2 N2 X; discriminate X].
-  - eapply kbind; [apply k_heowpm; [exact Hk | exact Hpre]|]. intros u m1 s1 K1 F1.
-    apply nlast; [ng | exact K1|]. intros a s2 N2. unfold FPK, pkt_ok. exact F1.
+    try (apply k_ret; [exact Hk | left; reflexivity]).
+  - apply nlast; [ng | exact Hk | intros a s1 N1; left; reflexivity].
+  - eapply kbind; [apply k_handle_metadata_packet; exact Hk|]. intros u m1 s1 K1 F1. mrun.
+    destruct (p_deferred (d_p s1)); unfold when; cbv iota; [|apply k_ret; [exact K1 | exact F1]].
+    apply nsbind; [apply ngs_reset_nak | exact K1|]. intros u2 s2 N2 St2 K2. mrun.
+    destruct F1 as [X|X].
+    + subst m1. destruct (d_step s2 =? DS_RECEIVING_FILE_DATA); cbv iota; [mfin; kok; left; reflexivity | apply k_ret; [exact K2 | left; reflexivity]].
+    + rewrite St2, X. change (DS_TRANSFER_COMPLETION =? DS_RECEIVING_FILE_DATA) with false. cbv iota.
+      apply k_ret; [exact K2 | right; congruence].
+  - eapply kbind; [apply k_heowpm|]. intros u m1 s1 K1 F1.
+    apply nslast; [ngs | exact K1|]. intros a s2 N2 St2. destruct F1 as [X|X]; [left; exact X | right; congruence].
 Qed.
-
-(* the step after a computation: unchanged with the mode, or the completion step *)
-Definition FSF (m0 : option Z) (s : dst) : unit -> option Z -> dst -> Prop :=
-  fun _ m1 s' => (m1 = m0 /\ d_step s' = d_step s) \/ d_step s' = DS_TRANSFER_COMPLETION.
-Definition FWF (m0 : option Z) : unit -> option Z -> dst -> Prop :=
-  fun _ m1 s' => m1 = m0 \/ d_step s' = DS_TRANSFER_COMPLETION.
 
 (* the re-issue of the NAK sequence (text of Dest.v) *)
 Definition nak_tail (r : rcfg) (eos : Z) (first : bool) : D unit :=
@@ -2065,23 +2127,18 @@ Definition nak_tail (r : rcfg) (eos : Z) (first : bool) : D unit :=
 Lemma ngs_nak_tail : forall r eos first, NGS (nak_tail r eos first).
 Proof. intros. ngs. Qed.
 
-Lemma nslast {A} (m : D A) m0 s (F : A -> option Z -> dst -> Prop) :
-  NGS m -> mk m0 s -> (forall a s1, nq s s1 -> d_step s1 = d_step s -> F a m0 s1) -> postx (QK m0 s F) (EK m0 s) (m s).
-Proof.
-  intros Hm Hk HF. pose proof (ngs_nqs m s Hm) as [N St]. unfold postx. destruct (m s) as [s1 [a|e]]; cbn [fst] in N, St.
-  - exists m0. split; [apply nq_rrk; assumption | apply HF; assumption].
-  - eapply ek_of_rrk. apply nq_rrk; eassumption.
-Qed.
-
 Lemma k_deferred : forall m0 s, mk m0 s -> postx (QK m0 s (FSF m0 s)) (EK m0 s) (deferred_lost_segment_handling s).
 Proof.
   intros m0 s Hk. unfold deferred_lost_segment_handling. mrun.
   destruct (negb (p_deferred (d_p s))); [apply k_ret; [exact Hk | left; split; reflexivity]|].
+  (* F35 repair: a cancelled transaction is left alone *)
+  mrun. destruct (p_disp (d_p s) =? DISP_CANCELED) eqn:Ed; [apply k_ret; [exact Hk | left; split; reflexivity]|].
+  assert (m0 = None) as -> by (eapply mk_disp; [exact Hk | apply Z.eqb_neq; exact Ed]).
   unfold rcfg_or_assert. mrun. destruct (p_rcfg (d_p s)) as [r|]; [|apply k_raise; exact Hk]. mrun.
   destruct (p_file_size_eof (d_p s)) as [eos|]; [|apply k_raise; exact Hk]. mrun.
   destruct ((zlen (p_tracker (d_p s)) =? 0) && negb (p_md_missing (d_p s))).
-  - eapply kbind; [apply k_checksum_verify; exact Hk|]. intros ok m1 s1 K1 _. mrun. mfin. kok. right. reflexivity.
-  - change (postx (QK m0 s (FSF m0 s)) (EK m0 s)
+  - eapply kbind; [apply k_checksum_verify|]. intros ok m1 s1 K1 _. mrun. mfin. kok. right. reflexivity.
+  - change (postx (QK None s (FSF None s)) (EK None s)
       ((go <- (match p_proc_timer (d_p s) with
                | Some t => if negb (timed_out (e_now (d_env s)) t) then ret None else ret (Some false)
                | None => setp (fun p => p <| p_proc_timer := Some (e_now (d_env s), r_nak_ms r) |>) ;;; ret (Some true)
@@ -2099,7 +2156,7 @@ Proof.
     intros go s1 N1 St1 K1. destruct go as [first|]; [|apply k_ret; [exact K1 | left; split; [reflexivity | exact St1]]].
     mrun. destruct (negb first && (p_nak_counter (d_p s1) + 1 =? r_nak_limit r)).
     + rewrite bind_assoc. apply kbind_df; [exact K1|]. intros fh m1 s2 K2 D2. mrun.
-      destruct D2 as [_ [_ [_ D2]]].
+      destruct D2 as [_ [_ [_ [_ D2]]]].
       destruct (negb (fh =? FH_IGNORE)).
       * apply k_ret; [exact K2|]. destruct D2 as [[_ [_ D2]]|[_ [D2 [D3 _]]]]; [right; exact D2 | left; split; [exact D2 | congruence]].
       * destruct D2 as [[_ [_ D2]]|[_ [D2 [D3 _]]]].
@@ -2116,33 +2173,38 @@ Proof.
   intros a m1 s' [[H _]|H]; [left; exact H | right; exact H].
 Qed.
 
-Lemma k_fsm_advancement : forall m0 s, mk m0 s -> postx (QK m0 s (FWF m0)) (EK m0 s) (fsm_advancement s).
+Lemma k_fsm_advancement : forall m0 s, mk m0 s -> postx (QK m0 s (FWA m0 s)) (EK m0 s) (fsm_advancement s).
 Proof.
   intros m0 s Hk. unfold fsm_advancement. mrun.
   destruct (0 <? zlen (d_queue s)); [apply k_raise; exact Hk|].
-  destruct (d_step s =? DS_SENDING_EOF_ACK); [|apply k_ret; [exact Hk | left; reflexivity]].
-  destruct (negb (p_disp (d_p s) =? DISP_CANCELED) && _); [apply k_start_deferred; exact Hk|].
-  destruct (negb (p_disp (d_p s) =? DISP_CANCELED)); unfold when; cbv iota.
-  - rewrite bind_assoc. eapply kbind; [apply k_checksum_verify; exact Hk|]. intros ok m1 s1 K1 _. mrun. mfin. kok. right. reflexivity.
+  destruct (d_step s =? DS_SENDING_EOF_ACK) eqn:Es; [|apply k_ret; [exact Hk | left; split; [reflexivity | intros _; reflexivity]]].
+  apply Z.eqb_eq in Es.
+  destruct (negb (p_disp (d_p s) =? DISP_CANCELED) && _).
+  { eapply k_weaken; [apply k_start_deferred; exact Hk|].
+    intros a m1 s' [X|X]; [left; split; [exact X | intro Y; contradiction] | right; exact X]. }
+  destruct (negb (p_disp (d_p s) =? DISP_CANCELED)) eqn:Ed; unfold when; cbv iota.
+  - assert (m0 = None) as ->.
+    { eapply mk_disp; [exact Hk|]. apply negb_true_iff in Ed. apply Z.eqb_neq. exact Ed. }
+    rewrite bind_assoc. eapply kbind; [apply k_checksum_verify|]. intros ok m1 s1 K1 _. mrun. mfin. kok. right. reflexivity.
   - mrun. mfin. kok. right. reflexivity.
 Qed.
 
-Lemma k_check_limit_handling : forall m0 s, mk m0 s -> postx (QK m0 s (FWF m0)) (EK m0 s) (check_limit_handling s).
+Lemma k_check_limit_handling : forall s, postx (QK None s FWN) (EK None s) (check_limit_handling s).
 Proof.
-  intros m0 s Hk. unfold check_limit_handling, rcfg_or_assert. mrun.
+  intros s. pose proof (mk_none s) as Hk. unfold check_limit_handling, rcfg_or_assert. mrun.
   destruct (p_check_timer (d_p s)) as [tm|]; [|apply k_raise; exact Hk]. mrun.
   destruct (p_rcfg (d_p s)) as [r|]; [|apply k_raise; exact Hk]. mrun.
   destruct (timed_out (e_now (d_env s)) tm); [|apply k_ret; [exact Hk | left; reflexivity]].
-  eapply kbind; [apply k_checksum_verify; exact Hk|]. intros ok m1 s1 K1 C1.
-  assert (W1 : m1 = m0 \/ (ok = false /\ d_step s1 = DS_TRANSFER_COMPLETION)).
-  { destruct C1 as [[X _]|X]; [left; exact X | right; exact X]. }
+  eapply kbind; [apply k_checksum_verify|]. intros ok m1 s1 K1 C1.
+  assert (W1 : m1 = None \/ (ok = false /\ d_step s1 = DS_TRANSFER_COMPLETION)).
+  { destruct C1 as [[X _]|[X [Y _]]]; [left; exact X | right; split; assumption]. }
   destruct ok.
   - apply nlast; [apply ng_ftct | exact K1|]. intros a s2 N2. destruct W1 as [X|[X _]]; [left; exact X | discriminate X].
   - mrun. destruct (p_rcfg (d_p s1)) as [r'|]; [|apply k_raise; exact K1]. cbv zeta.
     destruct (r_check_limit r' <=? p_check_count (d_p s1) + 1).
     + apply kbind_df; [exact K1|]. intros fh m2 s2 K2 D2.
-      assert (W2 : m2 = m0 \/ d_step s2 = DS_TRANSFER_COMPLETION).
-      { destruct D2 as [_ [_ [_ [[_ [_ D2]]|[_ [D2 [D3 _]]]]]]]; [right; exact D2|].
+      assert (W2 : m2 = None \/ d_step s2 = DS_TRANSFER_COMPLETION).
+      { destruct D2 as [_ [_ [_ [_ [[_ [_ D2]]|[_ [D2 [D3 _]]]]]]]]; [right; exact D2|].
         destruct W1 as [X|[_ X]]; [left; congruence | right; congruence]. }
       (* an ignored Check Limit Reached keeps counting and waits for another interval (F34 repair) *)
       destruct (fh =? FH_IGNORE); [|apply k_ret; [exact K2 | exact W2]].
@@ -2228,7 +2290,7 @@ Proof.
   exists m0. split; [|exact St1].
   exists [EvFinished a b (f_cond (p_fin (d_p s1))) (f_deliv (p_fin (d_p s1))) (f_fstatus (p_fin (d_p s1))) (f_fl (p_fin (d_p s1)))].
   split; [reflexivity|]. split.
-  - cbn [fins_ok mode_after]. split; [exact I|]. destruct m0 as [c|]; [|exact I]. apply (K1 c eq_refl).
+  - cbn [fins_ok mode_after]. split; [exact I|]. destruct m0 as [c|]; [|exact I]. exact (proj2 (K1 c eq_refl)).
   - split; [reflexivity|]. eapply mk_trip; [|exact K1]. reflexivity.
 Qed.
 
@@ -2309,7 +2371,7 @@ Proof.
     exists [EvFault FH_ABANDON a b (f_cond (p_fin (d_p s))) (p_progress (d_p s))].
     split; [reflexivity|]. split; [cbn; auto|]. split; [reflexivity|]. intros c _. right. repeat split; reflexivity.
   - rewrite bind_assoc. eapply klbind; [apply k_declare_fault; exact Hk|].
-    intros fh m1 s1 K1 D1. mrun. destruct D1 as [_ [_ [_ D1]]].
+    intros fh m1 s1 K1 D1. mrun. destruct D1 as [_ [_ [_ [_ D1]]]].
     destruct D1 as [[_ [Em St]]|[_ [Em [St T]]]].
     + (* notice of cancellation: completion in the same call *)
       assert (Ec : (p_disp (d_p s1) =? DISP_CANCELED) = true).
@@ -2317,7 +2379,7 @@ Proof.
       rewrite Ec. rewrite bind_assoc.
       eapply llbind; [apply Hag; [exact K1 | exact St]|]. intros u m2 s2 K2 _. mrun. apply l_ret; [exact K2 | exact I].
     + assert (Ec : (p_disp (d_p s1) =? DISP_CANCELED) = false).
-      { unfold trip in T. injection T as T1 _ _. rewrite T1. exact Ed. }
+      { unfold trip in T. injection T as T1 _. rewrite T1. exact Ed. }
       rewrite Ec. mrun. apply Hrest. exact K1.
 Qed.
 
@@ -2402,65 +2464,56 @@ Proof. reflexivity. Qed.
 Lemma non_idle_fsm_O : forall pkt, non_idle_fsm O pkt = kbody (raise E_FUEL) pkt.
 Proof. reflexivity. Qed.
 
-(* an EOF (cancel) PDU is only processed while no cancel callback has been delivered in the call: either the PDU is
-   not one, or no callback yet, or the completion step has been entered (where no section looks at the PDU) *)
-Definition PKF (pkt : option pdu) : unit -> option Z -> dst -> Prop :=
-  fun _ m s => pkt_ok pkt = true \/ m = None \/ d_step s = DS_TRANSFER_COMPLETION.
-
-Lemma k_body : forall again pkt, HAG again -> forall m0 s, mk m0 s -> (pkt_ok pkt = true \/ m0 = None) ->
+(* between the sections that look at the inbound PDU or verify the checksum: no cancel callback has been delivered in the
+   call, or the completion step has been entered (where none of those sections runs) *)
+Lemma k_body : forall again pkt, HAG again -> forall m0 s, mk m0 s -> (m0 = None \/ d_step s = DS_TRANSFER_COMPLETION) ->
   postx (QL m0 s FT) (EL m0 s) (kbody again pkt s).
 Proof.
   intros again pkt Hag m0 s Hk Hpre. unfold kbody.
   eapply klbind; [apply k_fsm_advancement; exact Hk|]. intros u0 m1 s1 K1 W1.
-  assert (P1 : PKF pkt tt m1 s1).
-  { destruct Hpre as [X|X]; [left; exact X|]. destruct W1 as [Y|Y]; [right; left; congruence | right; right; exact Y]. }
+  assert (P1 : @FWN unit tt m1 s1).
+  { destruct W1 as [[X Y]|Y]; [|right; exact Y]. destruct Hpre as [Z0|Z0]; [left; congruence|].
+    right. rewrite Y; [exact Z0 | rewrite Z0; discriminate]. }
   clear W1 Hpre Hk. mrun.
   (* file data / EOF while receiving *)
-  eapply klbind with (F1 := PKF pkt).
+  eapply klbind with (F1 := @FWN unit).
   { destruct ((d_step s1 =? DS_RECEIVING_FILE_DATA) || (d_step s1 =? DS_RECV_WITH_CHECK_LIMIT)) eqn:G;
       unfold when; cbv iota; [|apply k_ret; [exact K1 | exact P1]].
-    assert (G7 : d_step s1 <> DS_TRANSFER_COMPLETION).
-    { intro X. rewrite X in G. discriminate G. }
-    destruct pkt as [[h off data|h cl ck sz names msgs|h c ck sz fl| | | | | ]|]; try (apply k_ret; [exact K1 | exact P1]).
-    - eapply k_weaken; [apply k_handle_fd_pdu; exact K1|]. intros a m2 s2 _. left. reflexivity.
-    - assert (Hp : (c =? C_NO_ERROR) = true \/ m1 = None).
-      { destruct P1 as [X|[X|X]]; [left; exact X | right; exact X | contradiction]. }
-      eapply k_weaken; [apply k_handle_eof_pdu; [exact K1 | exact Hp]|].
-      intros a m2 s2 F2. unfold FEOF in F2. unfold PKF, pkt_ok. destruct (c =? C_NO_ERROR); [left; reflexivity|].
-      right. left. rewrite (F2 eq_refl). destruct Hp as [X|X]; [discriminate X | exact X]. }
+    assert (m1 = None) as ->.
+    { destruct P1 as [X|X]; [exact X | rewrite X in G; discriminate G]. }
+    destruct pkt as [[h off data|h cl ck sz names msgs|h c ck sz fl| | | | | ]|]; try (apply k_ret; [exact K1 | left; reflexivity]).
+    - eapply k_weaken; [apply k_handle_fd_pdu; exact K1|]. intros a m2 s2 [[X _]|X]; [left; exact X | right; exact X].
+    - apply k_handle_eof_pdu. }
   intros u1 m2 s2 K2 P2. mrun.
   (* waiting for the Metadata PDU *)
-  eapply klbind with (F1 := PKF pkt).
+  eapply klbind with (F1 := @FWN unit).
   { destruct (d_step s2 =? DS_WAITING_FOR_METADATA) eqn:G; unfold when; cbv iota; [|apply k_ret; [exact K2 | exact P2]].
     apply Z.eqb_eq in G.
-    assert (Hp : pkt_ok pkt = true \/ m2 = None).
-    { destruct P2 as [X|[X|X]]; [left; exact X | right; exact X | rewrite G in X; discriminate X]. }
-    eapply kbind; [apply k_hwfmm; [exact K2 | exact Hp]|]. intros u m3 s3 K3 F3.
+    assert (m2 = None) as ->.
+    { destruct P2 as [X|X]; [exact X | rewrite G in X; discriminate X]. }
+    eapply kbind; [apply k_hwfmm|]. intros u m3 s3 K3 F3.
     eapply k_weaken; [apply k_deferred; exact K3|].
-    intros a m4 s4 F4. unfold PKF. destruct (pkt_ok pkt) eqn:Ep; [left; reflexivity|]. right.
-    unfold FPK in F3. specialize (F3 Ep). destruct Hp as [X|X]; [discriminate X|].
-    destruct F4 as [[Y _]|Y]; [left; congruence | right; exact Y]. }
+    intros a m4 s4 [[X Y]|Y]; [|right; exact Y]. destruct F3 as [Z0|Z0]; [left; congruence | right; congruence]. }
   intros u2 m3 s3 K3 P3. mrun.
   (* check limit handling *)
-  eapply klbind with (F1 := PKF pkt).
+  eapply klbind with (F1 := @FWN unit).
   { destruct (d_step s3 =? DS_RECV_WITH_CHECK_LIMIT) eqn:G; unfold when; cbv iota; [|apply k_ret; [exact K3 | exact P3]].
     apply Z.eqb_eq in G.
-    eapply k_weaken; [apply k_check_limit_handling; exact K3|].
-    intros a m4 s4 F4. unfold PKF. destruct P3 as [X|[X|X]]; [left; exact X | | rewrite G in X; discriminate X].
-    right. destruct F4 as [Y|Y]; [left; congruence | right; exact Y]. }
+    assert (m3 = None) as ->.
+    { destruct P3 as [X|X]; [exact X | rewrite G in X; discriminate X]. }
+    apply k_check_limit_handling. }
   intros u3 m4 s4 K4 P4. mrun.
   (* waiting for missing data *)
   eapply klbind with (F1 := @FT unit).
   { destruct (d_step s4 =? DS_WAITING_FOR_MISSING_DATA) eqn:G; unfold when; cbv iota; [|apply k_ret; [exact K4 | exact I]].
     apply Z.eqb_eq in G.
+    assert (m4 = None) as ->.
+    { destruct P4 as [X|X]; [exact X | rewrite G in X; discriminate X]. }
     eapply kbind with (F1 := @FT unit).
     { destruct pkt as [[h off data|h cl ck sz names msgs|h c ck sz fl| | | | | ]|]; try (apply k_ret; [exact K4 | exact I]).
       destruct (c =? C_NO_ERROR) eqn:Ec.
       - apply nslast; [apply ngs_prepare_eof_ack_packet | exact K4 | intros; exact I].
-      - mrun. rebase as K5.
-        assert (Hn : m4 = None).
-        { destruct P4 as [X|[X|X]]; [unfold pkt_ok in X; rewrite Ec in X; discriminate X | exact X | rewrite G in X; discriminate X]. }
-        eapply k_weaken; [apply k_handle_eof_pdu; [exact K5 | right; exact Hn]|]. intros; exact I. }
+      - mrun. rebase as K5. eapply k_weaken; [apply k_handle_eof_pdu|]. intros; exact I. }
     intros u m5 s5 K5 _.
     eapply kbind with (F1 := @FT unit).
     { destruct pkt as [[h off data|h cl ck sz names msgs|h c ck sz fl| | | | | ]|]; try (apply k_ret; [exact K5 | exact I]).
@@ -2471,22 +2524,19 @@ Proof.
   apply k_tail; [exact Hag | apply mk_ml, K5].
 Qed.
 
-Lemma k_non_idle_fsm : forall fuel pkt m0 s, mk m0 s -> (pkt_ok pkt = true \/ m0 = None) ->
+Lemma k_non_idle_fsm : forall fuel pkt m0 s, mk m0 s -> (m0 = None \/ d_step s = DS_TRANSFER_COMPLETION) ->
   postx (QL m0 s FT) (EL m0 s) (non_idle_fsm fuel pkt s).
 Proof.
   induction fuel as [|k IH]; intros pkt m0 s Hk Hpre.
   - rewrite non_idle_fsm_O. apply k_body; [|exact Hk | exact Hpre].
     intros m s0 K0 _. apply k_to_l, k_raise. exact K0.
   - rewrite non_idle_fsm_S. apply k_body; [|exact Hk | exact Hpre].
-    intros m s0 K0 _. apply l_catch_abandoned. mrun.
+    intros m s0 K0 St0. apply l_catch_abandoned. mrun.
     destruct (d_state s0 =? ST_BUSY); unfold when; cbv iota; [|apply l_ret; [apply mk_ml, K0 | exact I]].
-    apply IH; [exact K0 | left; reflexivity].
+    apply IH; [exact K0 | right; exact St0].
 Qed.
 
 (* ------------------------------------------------------------------ the call that starts a transaction, and the whole call *)
-Definition FPK0 (pkt : option pdu) : unit -> option Z -> dst -> Prop :=
-  fun _ m1 _ => pkt_ok pkt = true \/ m1 = None.
-
 Lemma ng_hfdwpm : forall f o d, NG (handle_fd_without_previous_metadata f o d).
 Proof. intros. ng. Qed.
 
@@ -2496,7 +2546,7 @@ Proof.
   match goal with |- context [if ?b then _ else _] => destruct b end; mrun; mfin; eexists; split; reflexivity.
 Qed.
 
-Lemma k_idle_fsm : forall pkt s, postx (QK None s (FPK0 pkt)) (EK None s) (idle_fsm pkt s).
+Lemma k_idle_fsm : forall pkt s, postx (QK None s FWN) (EK None s) (idle_fsm pkt s).
 Proof.
   intros pkt s. unfold idle_fsm.
   destruct pkt as [[h off data|h cl ck sz names msgs|h c ck sz fl| | | | | ]|];
@@ -2508,11 +2558,9 @@ Proof.
     destruct (negb (d_state s =? ST_IDLE)); [apply k_ret; [apply mk_none | left; reflexivity]|]. mrun.
     match goal with |- context [if ?b then _ else _] => destruct b end; mrun;
       (match goal with |- postx _ _ (_ ?st) => apply (qk_shift None s None st); [apply rrk_none; reflexivity|] end);
-      (eapply k_weaken; [apply k_handle_metadata_packet; apply mk_none | intros; left; reflexivity]).
+      (eapply k_weaken; [apply k_handle_metadata_packet; apply mk_none | intros a m1 s' X; exact X]).
   - destruct (cfpnm_silent h s) as [s1 [E L]]. unfold bind at 1. rewrite E.
-    apply (qk_shift None s None s1); [apply rrk_none; exact L|].
-    eapply k_weaken; [apply k_heowpm; [apply mk_none | right; reflexivity]|].
-    intros a m1 s2 F2. unfold FEOF in F2. unfold FPK0, pkt_ok. destruct (c =? C_NO_ERROR); [left; reflexivity | right; apply F2; reflexivity].
+    apply (qk_shift None s None s1); [apply rrk_none; exact L|]. apply k_heowpm.
 Qed.
 
 (* what every state_machine call of the receiver does after a notice of cancellation: [new] are the events of the call *)
@@ -2540,10 +2588,10 @@ Proof.
     pose proof (minv_state _ _ _ s (adm_d p)) as X. rewrite Hadm in X. exact X. }
   destruct r0 as [u|e]; [|apply dest_cancel_post_refl].
   apply ql_post. apply l_catch_abandoned. mrun.
-  eapply klbind with (F1 := fun (_ : bool) m1 (_ : dst) => pkt_ok pkt = true \/ m1 = None).
+  eapply klbind with (F1 := @FWN bool).
   { destruct (d_state s =? ST_IDLE).
     - try rewrite bind_assoc. eapply kbind; [apply k_idle_fsm|]. intros u1 m1 s1 K1 F1. mrun. apply k_ret; [exact K1 | exact F1].
-    - apply k_ret; [apply mk_none | right; reflexivity]. }
+    - apply k_ret; [apply mk_none | left; reflexivity]. }
   intros stop m1 s1 K1 F1. destruct stop; [apply l_ret; [apply mk_ml, K1 | exact I]|]. mrun.
   destruct (d_state s1 =? ST_BUSY); unfold when; cbv iota; [|apply l_ret; [apply mk_ml, K1 | exact I]].
   apply k_non_idle_fsm; [exact K1 | exact F1].
@@ -2565,7 +2613,7 @@ Proof.
 Qed.
 
 Lemma fins_ok_in : forall c l, (forall e, In e l -> is_cancel e = false) -> fins_ok (Some c) l ->
-  forall a b cd dl fs fl, In (EvFinished a b cd dl fs fl) l -> cond_ok c cd dl.
+  forall a b cd dl fs fl, In (EvFinished a b cd dl fs fl) l -> cd = c.
 Proof.
   intros c l. induction l as [|e l IH]; intros Hn H a b cd dl fs fl Hin; [destruct Hin|].
   cbn [fins_ok] in H. destruct H as [H1 H2].
@@ -2579,7 +2627,7 @@ Lemma dest_cancel_condition_reported : forall pkt s,
   exists new, log_d (fst (Dest.state_machine pkt s)) = new ++ log_d s /\
     forall newer a b c prog older,
       new = newer ++ EvFault FH_CANCEL a b c prog :: older -> (forall e, In e newer -> is_cancel e = false) ->
-      (forall a' b' cd dl fs fl, In (EvFinished a' b' cd dl fs fl) newer -> cond_ok c cd dl) /\
+      (forall a' b' cd dl fs fl, In (EvFinished a' b' cd dl fs fl) newer -> cd = c) /\
       (cancelling c (fst (Dest.state_machine pkt s)) \/ dfresh (fst (Dest.state_machine pkt s))).
 Proof.
   intros pkt s. destruct (dest_state_machine_cancel_post pkt s) as [new [L [F M]]]. exists new. split; [exact L|].
@@ -2590,6 +2638,12 @@ Proof.
   - apply M. rewrite mode_after_app, Em. apply mode_after_no_cancel. exact Hn.
 Qed.
 
+(* a cancelled transaction: the deferred procedure does nothing, the cancel condition stands (F35 repair) *)
+Lemma deferred_cancelled_noop : forall s, p_disp (d_p s) = DISP_CANCELED -> deferred_lost_segment_handling s = (s, Ok tt).
+Proof.
+  intros s H. unfold deferred_lost_segment_handling. mrun. destruct (negb (p_deferred (d_p s))); [reflexivity|].
+  mrun. rewrite H. reflexivity.
+Qed.
 
 (* ================================================================== non-vacuity and counterexamples (from fresh handlers) *)
 Module Examples.
@@ -2637,29 +2691,28 @@ Module Examples.
       [EvFault FH_IGNORE 1 7 C_CHECKSUM_FAILURE 10; EvFault FH_IGNORE 1 7 C_CHECKSUM_FAILURE 10; EvEofRecv 1 7].
   Proof. vm_compute. reflexivity. Qed.
 
-  (* ---- receiver, (3): the condition of the cancel callback is what Transaction-Finished reports (dest_cancel_declared above);
-          the second alternative of [cond_ok] is real in the model: from a state in which the lost-segment bookkeeping is
-          inconsistent (a reachable state of an acknowledged transfer waiting for bytes [2,4) of 10, with p_last_start
-          pushed beyond the file size), a File Data PDU that closes the gap and reaches beyond the EOF's file size declares
-          File Size Error (cancel callback), and the deferred procedure of the same call then verifies the checksum
-          successfully: condition No Error, Data Complete, in the indication and in the Finished PDU *)
+  (* ---- receiver, (3): the condition of the cancel callback is what Transaction-Finished reports (dest_cancel_declared above).
+          Defect F35 (found as the second alternative of the former [cond_ok]; repaired): acknowledged transfer of 5 bytes,
+          Metadata, File Data (0,4), EOF (no error, 5), ACK retrieved, poll (NAK (4,5)), then File Data (4, 4 bytes), which
+          closes the gap and reaches beyond the EOF's file size: File Size Error, cancel callback.  Before the repair the
+          deferred procedure of the same call verified the checksum and the transaction was reported No Error / Data
+          Complete; now the condition of the callback stands: Finished (File Size Error, Data Incomplete) to user and peer *)
   Definition ex_acfg : lcfg :=
     mkLcfg 2 2 true true true true default_fault_table 1000 [rc 1 (Some 4) false ACKED CK_CRC32 3 false].
   Definition ex_ah : hdr := mkHdr TOWARDS_RECEIVER ACKED false false 1 2 2 7 2.
-  Definition ex_ck : bytes := match calculate_checksum CK_CRC32 (Some ex_data) 10 4 with Ok c => c | Err _ => [] end.
-  Definition ex_a5 : dst :=
-    ex_dsm None (ex_dsm (Some (PEof ex_ah C_NO_ERROR ex_ck 10 None))
-      (ex_dsm (Some (PFileData ex_ah 4 (zdrop 4 ex_data)))
-        (ex_dsm (Some (PFileData ex_ah 0 (ztake 2 ex_data)))
-          (ex_dsm (Some (PMetadata ex_ah false CK_CRC32 10 (Some ([1], [2])) [])) (dst_init ex_acfg))))).
-  Definition ex_a5x : dst := ex_a5 <| d_p ::= (fun p => p <| p_last_start := 20 |>) |>.
-  Definition ex_a6 : dst := fst (Dest.state_machine (Some (PFileData ex_ah 2 (zdrop 2 ex_data ++ [99]))) ex_a5x).
-  Example cancel_condition_overwritten_by_verification :
-    d_step ex_a5 = DS_WAITING_FOR_MISSING_DATA /\ p_tracker (d_p ex_a5) = [(2, 4)] /\
-    ex_new ex_a5x ex_a6 =
-      [EvFinished 1 7 C_NO_ERROR DATA_COMPLETE FS_RETAINED None; EvFault FH_CANCEL 1 7 C_FILE_SIZE_ERROR 10; EvSegmentRecv 1 7 2 9] /\
-    (exists h, d_queue ex_a6 = [PFinished h C_NO_ERROR DATA_COMPLETE FS_RETAINED None]) /\
-    p_disp (d_p ex_a6) = DISP_CANCELED.
+  Definition ex_d5 := test_data 5.
+  Definition ex_ck5 : bytes := match calculate_checksum CK_CRC32 (Some ex_d5) 5 4 with Ok c => c | Err _ => [] end.
+  Definition ex_b4 : dst :=
+    ex_dsm None (ex_dsm (Some (PEof ex_ah C_NO_ERROR ex_ck5 5 None))
+        (ex_dsm (Some (PFileData ex_ah 0 (ztake 4 ex_d5)))
+          (ex_dsm (Some (PMetadata ex_ah false CK_CRC32 5 (Some ([1], [2])) [])) (dst_init ex_acfg)))).
+  Definition ex_b5 : dst := fst (Dest.state_machine (Some (PFileData ex_ah 4 (zdrop 4 ex_d5 ++ [9; 9; 9]))) ex_b4).
+  Example cancel_condition_stands_after_gap_closed :
+    d_step ex_b4 = DS_WAITING_FOR_MISSING_DATA /\ p_tracker (d_p ex_b4) = [(4, 5)] /\
+    ex_new ex_b4 ex_b5 =
+      [EvFinished 1 7 C_FILE_SIZE_ERROR DATA_INCOMPLETE FS_RETAINED None; EvFault FH_CANCEL 1 7 C_FILE_SIZE_ERROR 4; EvSegmentRecv 1 7 4 4] /\
+    (exists h, d_queue ex_b5 = [PFinished h C_FILE_SIZE_ERROR DATA_INCOMPLETE FS_RETAINED None]) /\
+    p_disp (d_p ex_b5) = DISP_CANCELED.
   Proof. vm_compute. repeat split; try reflexivity. eexists; reflexivity. Qed.
 
   (* ---- sender: acknowledged transfer, the EOF is never acknowledged, positive ACK limit 1; Positive ACK Limit Reached
@@ -2823,5 +2876,6 @@ Print Assumptions dest_abandon_is_final.
 Print Assumptions fault_kinds.
 Print Assumptions dest_state_machine_cancel_post.
 Print Assumptions dest_cancel_condition_reported.
+Print Assumptions deferred_cancelled_noop.
 Print Assumptions source_one_fault_callback.
 Print Assumptions source_fault_events_follow_table.
